@@ -60,6 +60,19 @@ def c07_runs(tier):
 
 
 PROPS = {
+    "C16": {
+        "engine": "rapidcheck + enumeration",
+        "technique": "differential against libstdc++ std::to_chars (Ryu) for the printf build; exact decimal distance oracle (__int128) for the built-in formatter at every precision",
+        "level": "random doubles/floats over the whole exponent range, rounding-boundary and zero-digit values, every k*10^e, NaN/inf, in the "
+                 "printf build (text identical to an independent %g implementation) and the USE_CUSTOM_DTOSTRE build (within one unit of "
+                 "the last requested digit for precisions 1..15, %g shape)",
+        "level_note": "trusts libstdc++'s std::to_chars (general and scientific formats) as the independent reference for correctly rounded digits",
+        "design_ref": "DESIGN.md section 4, C16",
+        "runs": simple("c16", cfgs=("default", "dtostre")),
+        "rule": "case = (value, float/double, precision, flags, API: *ToStr / Result* / SCPI_dtostre, build configuration); distinct by hash; "
+                "non-trivial = the value is not exactly representable in the requested digits (rounding needed) or its rounded digits contain a zero",
+        "assumptions": COMMON_ASSUME + ["std::to_chars(double, general|scientific, precision) is correctly rounded"],
+    },
     "C07": {
         "engine": "enumeration + rapidcheck",
         "technique": "round-trip property (format with SCPI_Result*, feed the bytes back through SCPI_Input, read with SCPI_Param*) over enumerated and rapidcheck-generated values",
